@@ -118,6 +118,11 @@ def oracle(line, out):
     t = body.split(); stream, op, T = t[0], t[1], Toks(t[2:])
     v = []
     err = out[4:] if out.startswith('err:') else None
+    exp_meta = next((m for m in meta if m.startswith('expect=')), None)
+    for_meta = next((m for m in meta if m.startswith('for=')), None)
+    if exp_meta and for_meta and out != exp_meta.split('=', 1)[1]:
+        for p in for_meta.split('=', 1)[1].split(','):
+            v.append((p, f'got {out[:120]}, expected {exp_meta.split("=", 1)[1][:120]}'))
     if stream == 'len':
         if op == 'encode':
             n = T.nat()
@@ -208,14 +213,13 @@ def oracle(line, out):
             hits = [r for r in rs if s.startswith(r['id'][2:])]
             if not hits and out != 'err:RuleIDMatchError':
                 v.append(('C15', f'no rule id matches: got {out}')); v.append(('C11', f'no rule id matches: got {out}'))
+            if hits and out == 'err:RuleIDMatchError':
+                v.append(('C15', 'rule-ID error although a rule ID is a prefix of the packet')); v.append(('C11', 'rule-ID error although a rule ID is a prefix of the packet'))
     elif op in ('fcompress', 'fdecompress', 'froundtrip'):
         n = T.nat(); ctxs = [p_context(T) for _ in range(n)]; pk = T.next(); ifc = unesc(T.next())
         if err: v.append(('C15', f'front end raised {err}'))
         if op == 'froundtrip' and 'c15rt' in meta and not err:
             if out.split(' ')[1][2:] != pk[2:]: v.append(('C15', f'front end round trip gives {out} for {pk}'))
-        if 'expect' in ' '.join(meta):
-            exp = next(m for m in meta if m.startswith('expect=')).split('=', 1)[1]
-            if out != exp: v.append(('C15', f'front end gives {out}, expected {exp}'))
     return v
 
 def evaluate(line):
@@ -357,6 +361,36 @@ def gen(props, tier, rng):
                     yield f'schc mdecompress {e_rules(rs)} {m} # total prefixfree'
                 for _ in range(3 if q else 10):
                     yield f"schc mdecompress {e_rules(rs)} {rng.choice('LR')}:{rulegen.rbits(rng, rng.randrange(0, 2000))} # total prefixfree"
+    if props & {'C01', 'C15', 'C11'}:
+        # SCHC packets that consist of the rule ID only: every field elided, empty payload
+        for i in range(20 if q else 200):
+            stack = ['UDP', 'CoAP'][i % 2]
+            if stack == 'UDP':
+                h, e = packets.build_udp(rng, b'', dport=rng.choice([1, 2000]), correct=True); data = h; exp = e
+            else:
+                data, exp = packets.build_coap(rng, bytes(rng.randrange(256) for _ in range(rng.randrange(0, 4))), [], b'')
+            pkt = rulegen.packet_from_fields(exp, '', 'U')
+            ids = rulegen.prefix_free_codes(rng, 3, maxlen=rng.choice([2, 4, 9, 16]))
+            r = {'id': abuf(ids[0], rng.choice('LR')), 'nature': 'c', 'fields': [rulegen.derive_rfield(rng, f, pairing=('eq', 'ns')) for f in pkt['fields']]}
+            other = {'id': abuf(ids[1]), 'nature': 'c', 'fields': [rulegen.derive_rfield(rng, f, pairing=('ig', 'vs'), variable=False) for f in pkt['fields']]}
+            rs = [r, other] if rng.random() < 0.5 else [other, r]
+            raw = 'L:' + packets.bits_of(data)
+            for st in ('first', 'best'):
+                if 'C01' in props: yield f'schc mroundtrip {esc(stack)} {e_rules(rs)} {raw} U {st} # c01'
+            if props & {'C15', 'C11'}:
+                yield f"schc mdecompress {e_rules(rs)} {rng.choice('LR')}:{ids[0]} # prefixfree total"
+                ctx = {'id': 'c', 'iface': 'if0', 'parser': stack, 'rules': [r]}
+                if 'C15' in props: yield f'schc froundtrip 1 {e_context(ctx)} {raw} if0 # c15rt'
+    if 'C01' in props:
+        for n in [254, 255, 256, 300, 1000] + ([] if q else [4095, 40000, 65535]):
+            for patlen in [0, 3, 8]:
+                val = rulegen.rbits(rng, n + patlen)
+                pkt = rulegen.packet_from_fields([('a', 0, rulegen.rbits(rng, 5)), ('v', 0, val), ('z', 0, rulegen.rbits(rng, 9))], rulegen.rbits(rng, rng.choice([0, 7, 16])))
+                for kind in ('vs', 'lsb'):
+                    rf = [{'id': 'a', 'len': 5, 'pos': 0, 'dir': 'B', 'mo': 'ig', 'cda': 'vs', 'tv': ('b', 'L:')},
+                          {'id': 'v', 'len': 0, 'pos': 0, 'dir': 'B', 'mo': 'ig' if kind == 'vs' else 'msb', 'cda': kind, 'tv': ('b', 'L:' + (val[:patlen] if kind == 'lsb' else ''))},
+                          {'id': 'z', 'len': 9, 'pos': 0, 'dir': 'B', 'mo': 'eq', 'cda': 'ns', 'tv': ('b', pkt['fields'][2]['value'])}]
+                    yield f"schc roundtrip {e_packet(pkt)} {e_rule({'id': abuf('101'), 'nature': 'c', 'fields': rf})} # c01"
     # ---------------------------------------------------------------- C04
     if 'C04' in props or 'C18' in props:
         N = 120 if q else 1200
@@ -383,6 +417,32 @@ def gen(props, tier, rng):
             r = _with_directions(rng, rulegen.derive_rule(rng, pkt, allow_compute=False), pkt, every_position=i)
             for d in 'UD':
                 yield f'schc roundtrip {e_packet(dict(pkt, dir=d))} {e_rule(r)} # c18'
+    if 'C18' in props:
+        # rule sets whose rules are each for ONE direction (all descriptors Up-or-Bi / Dw-or-Bi): selection through the manager, both strategies
+        for i in range(40 if q else 400):
+            stack = STACKS[i % 5]
+            data, pkt = rulegen.gen_stack(rng, stack)
+            ids = rulegen.prefix_free_codes(rng, 5, maxlen=6)
+            rules = []
+            for k, dd in enumerate('UDUD'):
+                r = stack_rule(rng, pkt, ids[k], compute_prob=0.0)
+                for f in r['fields']:
+                    if rng.random() < 0.5: f['dir'] = dd
+                if all(f['dir'] == 'B' for f in r['fields']) and r['fields']: r['fields'][0]['dir'] = dd
+                rules.append(r)
+            rng.shuffle(rules)
+            if rng.random() < 0.5: rules.append(rulegen.default_rule(ids[4]))
+            raw = 'L:' + packets.bits_of(data)
+            for d in 'UD':
+                p2 = dict(pkt, dir=d)
+                app = [r for r in rules if spec.applicable(p2, r)]
+                for st in ('first', 'best'):
+                    if app:
+                        outs = [spec.ref_compress(p2, r, [f for f in r['fields'] if spec.dir_applies(d, f['dir'])]) for r in app]
+                        exp = 'R:' + (outs[0] if st == 'first' else min(outs, key=len))
+                    else:
+                        exp = 'err:RuleDescriptorMatchError'
+                    yield f'schc mcompress {esc(stack)} {e_rules(rules)} {raw} {d} {st} # expect={exp} for=C18'
     # ---------------------------------------------------------------- C10
     if 'C10' in props:
         N = 150 if q else 1500
@@ -523,7 +583,7 @@ def _gen_c15(rng, q):
         else:
             exp = raw
         enc = f"{len(ctxs)} " + ' '.join(e_context(c) for c in ctxs)
-        yield f'schc fcompress {enc} {raw} if0 # expect={exp}'
+        yield f'schc fcompress {enc} {raw} if0 # expect={exp} for=C15'
         yield f"schc froundtrip {enc} {raw} if0 # {'c15rt' if firsthit else 'nohit'}"
         yield f"schc fdecompress {enc} R:{rulegen.rbits(rng, rng.randrange(0, 64))} if0"
 
